@@ -25,6 +25,7 @@ type c17Sched struct {
 	insert bool
 	update bool
 	setTTL bool
+	full   bool // block 0 is full: the inserting thread (a row WITHOUT a time-to-live) opens block 1
 }
 
 func c17SchedScenarios() []c17Sched {
@@ -35,6 +36,7 @@ func c17SchedScenarios() []c17Sched {
 		{name: "2-passes||extend||insert-with-ttl", ticks: 2, extend: true, insert: true},
 		{name: "pass||setTTL(0)", ticks: 1, setTTL: true},
 		{name: "extend||extend||pass", ticks: 1, twoExt: true},
+		{name: "pass||insert-opening-a-new-block", ticks: 1, full: true},
 	}
 }
 
@@ -44,6 +46,15 @@ func (sc c17Sched) instance() *eng.SchedInstance {
 	ttl := func(u int) model.Write { return model.Write{SetTTL: true, TTL: time.Duration(u) * c17U} }
 	// rows 0 and 1 expire at T0+1u, row 2 never
 	w.Txn([]model.Act{{Op: "insert", W: []model.Write{n1, ttl(1)}}, {Op: "insert", W: []model.Write{n1, ttl(1)}}, {Op: "insert", W: []model.Write{n1}}}, false)
+	if sc.full {
+		// rows 3..16383: filler without a time-to-live, not tracked by the model (the oracle counts them)
+		w.C.Query(func(txn *column.Txn) error {
+			for i := 3; i < 16384; i++ {
+				txn.Insert(func(r column.Row) error { r.SetInt("n", 1); return nil })
+			}
+			return nil
+		})
+	}
 	w.Advance(2 * c17U) // both deadlines have passed
 	w.Sched = true
 	w.Commits, w.Emitters = nil, nil
@@ -66,6 +77,9 @@ func (sc c17Sched) instance() *eng.SchedInstance {
 	if sc.insert {
 		sw.add("insert(ttl 3u)", []model.Act{{Op: "insert", W: []model.Write{n1, ttl(3)}}}, false)
 	}
+	if sc.full {
+		sw.add("insert(no ttl)", []model.Act{{Op: "insert", W: []model.Write{n1}}}, false)
+	}
 	if sc.update {
 		sw.add("update(row1.n+=1)", []model.Act{{Op: "put", Off: 1, W: []model.Write{{Col: "n", V: model.Val{N: 1}, Merge: true}}}}, false)
 	}
@@ -79,7 +93,16 @@ func (sc c17Sched) instance() *eng.SchedInstance {
 		Check: func(res *vsched.Result) (string, []eng.Violation) {
 			vs := threadPanics(res, names)
 			live := map[uint32]bool{}
-			w.C.Query(func(txn *column.Txn) error { return txn.Range(func(i uint32) { live[i] = true }) })
+			filler := 0
+			w.C.Query(func(txn *column.Txn) error {
+				return txn.Range(func(i uint32) {
+					if sc.full && i >= 3 && i < 16384 {
+						filler++
+						return
+					}
+					live[i] = true
+				})
+			})
 			// emission order in block 0: who committed before the cleanup's delete?
 			protectedBefore := false // a commit that put row 0's deadline into the future (or removed it) preceded a cleanup commit
 			cleanupCommits := 0
@@ -101,7 +124,7 @@ func (sc c17Sched) instance() *eng.SchedInstance {
 			// "row 0 / row 1" below means the ORIGINAL occupant
 			fresh := map[uint32]bool{}
 			for _, t := range sw.threads {
-				if t.name == "insert(ttl 3u)" && t.done && t.err == nil {
+				if (t.name == "insert(ttl 3u)" || t.name == "insert(no ttl)") && t.done && t.err == nil {
 					for _, off := range t.res.Inserted {
 						fresh[off] = true
 					}
@@ -110,6 +133,27 @@ func (sc c17Sched) instance() *eng.SchedInstance {
 			outcome := fmt.Sprintf("live=%v fresh=%v cleanup-commits=%d protect-before-cleanup=%v", sortedLive(live), sortedLive(fresh), cleanupCommits, protectedBefore)
 			if !live[2] {
 				vs = append(vs, eng.Violation{Assert: "expire/no-ttl-kept", Witness: "a row without a time-to-live (or with a future deadline) was removed", Detail: outcome})
+			}
+			if sc.full {
+				if filler != 16381 {
+					vs = append(vs, eng.Violation{Assert: "expire/no-ttl-kept", Witness: "a row without a time-to-live (or with a future deadline) was removed",
+						Detail: fmt.Sprintf("%s; %d of the 16381 filler rows of block 0 are live", outcome, filler)})
+				}
+				for _, t := range sw.threads {
+					if t.name == "insert(no ttl)" && t.done && t.err == nil {
+						for _, off := range t.res.Inserted {
+							outcome += fmt.Sprintf(" inserted@%d live=%v", off, live[off])
+							if !live[off] {
+								vs = append(vs, eng.Violation{Assert: "expire/no-ttl-kept", Witness: "a freshly inserted row without a time-to-live was removed",
+									Detail: fmt.Sprintf("%s; the insert committed at offset %d (opening block %d) beside a cleanup pass", outcome, off, off>>14)})
+							}
+						}
+						if got := w.C.Count(); got != filler+len(live) {
+							vs = append(vs, eng.Violation{Assert: "count", Witness: "Count differs from the number of rows iteration visits",
+								Detail: fmt.Sprintf("%s; Count()=%d, Range visits %d rows", outcome, got, filler+len(live))})
+						}
+					}
+				}
 			}
 			if sc.twoExt && live[2] {
 				// deadline = (T0+2u) + 5u + 1u + 2u
